@@ -417,7 +417,7 @@ def gen_sequence(rng, n, kind, grid_pos, pools, motifs, emulator):
             elif op[0] == 'tf1d' and rng.random() < 0.7:
                 op = ['attributes', op[1]]
         if op[0] == 'rvh' and unstructured and ps not in (None, op[1]):
-            out.append(['clear'])
+            out.append(['clear', None])
             ps = None
         out.append(op)
         if op[0] == 'clear':
@@ -505,7 +505,7 @@ def sequence_checks(inp, p, label, mode, E, reference, n, kind, shape, grid_pos,
     import seismic_zfp
     rng = random.Random(f'{a.seed}:{label}:{mode}:sequences')       # own stream: the cases above do not depend on it
     pools = seq_pools(template)
-    rounds = (1 if QUICK and not a.search else 3) * (2 if kind == 'irregular' else 1)
+    rounds = (2 if QUICK and not a.search else 5) * (2 if kind == 'irregular' else 1)
     t0 = time.time()
     for rd in range(rounds):
         motifs = rng.sample(SEQ_MOTIFS, len(SEQ_MOTIFS))
